@@ -29,16 +29,16 @@ type backend interface {
 }
 
 type scen struct {
-	c       *ev.Ctx
-	r       *rand.Rand
-	be      backend
-	K       int64 // ticks per threshold unit
-	varying bool
-	root    *node
-	nodes   []*node // all non-dead nodes
-	serial  int
-	steps   int
-	sampled bool
+	c        *ev.Ctx
+	r        *rand.Rand
+	be       backend
+	K        int64 // ticks per threshold unit
+	varying  bool
+	root     *node
+	nodes    []*node // all non-dead nodes
+	serial   int
+	steps    int
+	sampled  bool
 	walk     bool
 	changeAt []int64
 	changeTo []int64
